@@ -415,6 +415,7 @@ class Session:
         oracles written from the property statements (answered exactly once, documented barriers, bonus once ...)"""
         before = None
         applied = []
+        self.roll = evs[0].get("roll", 0.5)
         for ev, gap in zip(evs, gaps):
             mes = self._apply_real(ev)
             if mes is None:
@@ -430,6 +431,7 @@ class Session:
             return
         self.sim.settle()
         real_outs = self.parse_real_outputs()
+        self.last_real_outs = real_outs
         self._book(real_outs)
         for c in [c for c in self.pending_leave if self.sim.conns[c].task.done()]:
             del self.pending_leave[c]
@@ -516,8 +518,54 @@ class Session:
                     del pending[o["c"]]
         return outs, ms, pending
 
+    WORLD_FOCUS = (None, "C02", "C03", "C11", "C12")
+
     def do(self, ev):
+        pre = self._world_pre(ev) if (self.focus in self.WORLD_FOCUS and not self.broken) else None
         self.do_burst([ev], [0])
+        if pre is not None:
+            self._world_post(ev, pre)
+
+    # closed-mode bridge between coordinator and world: what a game action of a playing agent does to the view the
+    # coordinator holds for it (and to the shared tables) must be what the PROVED world model does on the same inputs
+    def _world_pre(self, ev):
+        if ev.get("t") != "msg" or ev.get("m", {}).get("k") != "game" or ev.get("note") == "unprocessable":
+            return None
+        co, addr = self.coord, PEER(ev["c"])
+        if addr not in co.agents or co._episode_ends.get(addr) or ev["c"] in self.awaiting or not co._ip_to_hostname:
+            return None
+        try:
+            act = Action.from_json(ev["raw_bytes"].decode())
+            return (C.world2j(co), C.view2j(co._agent_states[addr]), C.action2j(act), co._agent_steps.get(addr))
+        except Exception:
+            return None
+
+    def _world_post(self, ev, pre):
+        wj, vj, aj, steps0 = pre
+        co, addr = self.coord, PEER(ev["c"])
+        if addr not in co.agents or co._agent_steps.get(addr) != (steps0 or 0) + 1:
+            return          # the coordinator did not execute it (refused / the agent is gone): other oracles judge that
+        if not (self.oracle.get(ev["c"]) or {}).get("stepCalled"):
+            self.fail({"C03", "C02"}, "world-bridge:not-consulted",
+                      f"the coordinator counted {aj['t']} of connection {ev['c']} as an executed step but never asked the world to execute it", self.replay())
+            return
+        try:
+            self.drv.ask({"op": "world", "world": wj})
+            m = self.drv.ask({"op": "step", "view": vj, "action": aj})
+        except RuntimeError:
+            return          # not an action of the modelled value space (e.g. a decodable but unhashable field)
+        self.stats["world_bridge_steps"] = self.stats.get("world_bridge_steps", 0) + 1
+        if m.get("raised"):
+            return
+        rv = C.canon_view(C.view2j(co._agent_states[addr]))
+        mv = C.canon_view(m["view"])
+        d = C.diff_canon(rv, mv) + ["world." + k for k in C.diff_canon(C.canon_worlddyn(C.worlddyn2j(co)), C.canon_worlddyn(m["world"]))]
+        if d:
+            tag = "C03" if m["pre"] else "C02"
+            self.fail({tag} | ({"C12"} if len(co.agents) > 1 and any(not x.startswith("world.") for x in d) else set()),
+                      f"world-bridge:{aj['t']}:pre={m['pre']}:{','.join(sorted(d))[:60]}",
+                      f"{aj['t']} (documented precondition {'holds' if m['pre'] else 'does not hold'}, guards {m['guards']}) executed by the coordinator for connection {ev['c']}: "
+                      f"the view it now holds / the shared tables differ from the proved effect in {d}", self.replay())
 
     def do_burst(self, evs, gaps):
         """evs delivered into the SAME run of the event loop: after feeding event i the loop runs gaps[i]
@@ -534,6 +582,7 @@ class Session:
         before = self.real_state()
         pending_before = dict(self.pending_leave)
         groups = []
+        group_conn = []
         applied = []
         for ev, gap in zip(evs, gaps):
             log = {k: v for k, v in ev.items() if k not in ("raw_bytes", "action")}
@@ -549,6 +598,7 @@ class Session:
             applied.append(ev)
             if mes:
                 groups.append(mes)
+                group_conn.append(ev["c"])
             if gap:
                 self.sim.run_iterations(gap)
         if not applied:
@@ -558,6 +608,7 @@ class Session:
             if not self.sim.conns[c].task.done():
                 self.alive.add(c)
         real_outs = self.parse_real_outputs()
+        self.last_real_outs = real_outs
         self._book(real_outs)
         if len(applied) > 1:
             self.stats["bursts"] = self.stats.get("bursts", 0) + 1
@@ -565,6 +616,8 @@ class Session:
         chosen = None
         first = None
         orders = list(itertools.permutations(range(len(groups)))) if len(groups) > 1 else [tuple(range(len(groups)))]
+        # events of ONE connection keep the order in which that connection sent them
+        orders = [o for o in orders if all(o.index(i) < o.index(j) for i in range(len(groups)) for j in range(i + 1, len(groups)) if group_conn[i] == group_conn[j])]
         orders = [(o, True) for o in orders] + ([(o, False) for o in orders] if len(groups) > 1 else [])
         if len(orders) > 1:
             self.drv.ask({"op": "snapshot"})
@@ -778,10 +831,27 @@ class Session:
             if cur["goal"] != self.settings["goal"]:
                 self.settings = cur
                 self.drv.ask({"op": "coord_settings", "settings": self.settings})
+            if self.gen is not None and set(self.gen.ips) != set(co._ip_to_hostname):
                 self.gen = None
         # C08: every completed reset (static addresses) must leave the world in its initial condition
         if self.world0 is None and co._ip_to_hostname and not any(co._agent_steps.values()) and not co._fw_blocks:
             self.world0 = C.canon_worlddyn(C.worlddyn2j(co))
+            self.tables0 = C.tables(co) if dyn else None
+        if dyn and getattr(self, "tables0", None) is not None and any(o.get("code") == "RESET_DONE" for o in real_outs) and not any(co._agent_steps.values()):
+            # dynamic addresses: after a completed reset every table is the INITIAL table pushed through the published maps
+            # (data copied by exfiltration gone, blocks lifted and forgotten - also in the 'original' firewall kept for later resets)
+            S["resets_done_dynamic"] = S.get("resets_done_dynamic", 0) + 1
+            try:
+                sig = {str(k): str(v) for k, v in co._ip_mapping.items() if k != "random"}
+                tau = {str(k): str(v) for k, v in co._network_mapping.items()}
+                exp, got = C.push(self.tables0, sig, tau), C.tables(co)
+                bad = [k for k in ("fw", "fw_orig", "data", "blocks", "services", "hostname", "nets") if exp[k] != got[k]]
+            except Exception as e:
+                bad = [f"maps-incomplete:{e!r}"]
+            if bad:
+                self.fail({"C08", "C13"}, "world-not-restored-dynamic:" + ",".join(bad)[:60],
+                          f"after a completed reset with dynamic addresses the tables {bad} are not the initial tables under the published re-labelling (after {kind} on {cid})", self.replay())
+                self.tables0 = None
         if self.world0 is not None and not co.task_config.get_use_dynamic_addresses() and any(o.get("code") == "RESET_DONE" for o in real_outs):
             S["resets_done"] = S.get("resets_done", 0) + 1
             if not any(co._agent_steps.values()):       # nobody has acted in the new episode yet
@@ -859,6 +929,7 @@ class Script:
     def __init__(self, sess: Session, rng, profile):
         self.s, self.rng, self.profile = sess, rng, profile
         self.names = {}
+        self.all_twins = rng.random() < profile.get("twin_session", 0.12)     # every agent of this session uses the same name
 
     def live(self):
         return [c for c in sorted(self.s.sim.conns) if not self.s.sim.conns[c].task.done()]
@@ -879,8 +950,21 @@ class Script:
             view = GameState(controlled_hosts={IP("192.168.2.2")}, known_hosts={IP("192.168.2.2")})
         s.gen.rng = self.rng
         a = s.gen.action(view, singling=0.1)
-        if self.rng.random() < 0.25 and co._agent_last_action.get(addr) is not None:
+        r = self.rng.random()
+        if r < 0.25 and co._agent_last_action.get(addr) is not None:
             a = co._agent_last_action[addr]          # repeats matter to the defender
+        elif r < 0.37:
+            # ... also repeats of an action played longer ago in this episode
+            try:
+                hist = co._agent_trajectories[addr]["trajectory"]["actions"]
+                if hist:
+                    a = Action.from_dict(self.rng.choice(hist))
+            except Exception:
+                pass
+        if self.rng.random() < 0.3 and len(a.parameters) > 1:
+            items = list(a.parameters.items())
+            self.rng.shuffle(items)                  # the same action with its parameters listed in another order
+            a = Action(a.type, dict(items))
         return a
 
     def next(self):
@@ -931,6 +1015,13 @@ class Script:
             if rng.random() < 0.06:
                 role = rng.choice(["Hacker", "attacker", ""])
             name = f"agent{cid}"
+            r2 = rng.random()
+            if self.all_twins or r2 < p.get("twin_names", 0.12):
+                name = "twin"                              # several agents may use one name (and role)
+            elif r2 < p.get("twin_names", 0.12) + 0.02:
+                name = "n" * rng.choice([5000, 7800])      # a long name (the request still fits one read of 8192 bytes, the welcome message does not)
+            elif r2 < p.get("twin_names", 0.12) + 0.06:
+                name = rng.choice(["a/b", "../up", "sp ace", "d'Art", "ünï", "a_b", ".", "x" * 300])
             return {"t": "msg", "c": cid, "m": {"k": "join", "name": name, "role": role if role in ROLES else None},
                     "raw_bytes": J(ActionType.JoinGame, agent_info=AgentInfo(name, role))}
         addr = PEER(cid)
@@ -977,11 +1068,16 @@ def run_sessions(drv, rng, defender_tables, on_fail, stats, n_sessions, n_events
         if getattr(cfg_gen, 'variants', cfg_gen is gen_config) and not is_outcomes and rng.random() < 0.12:
             # dynamic addresses: every reset re-labels the network (no bursts: the goals change inside a delivery)
             cfg["env"]["use_dynamic_addresses"] = True
-            prof["burst"] = 0.0
+            prof["burst_no_game"] = True      # a reset inside a burst re-labels the goals: bursts carry no game actions
             prof["early_reset"] = max(prof.get("early_reset", 0.0), 0.12)
             stats["sessions_dynamic_addresses"] = stats.get("sessions_dynamic_addresses", 0) + 1
         for k, v in (prof.get("force_env") or {}).items():
             cfg["env"][k] = v
+        for k, pr in (prof.get("force_env_some") or {}).items():
+            if rng.random() < pr:
+                cfg["env"][k] = True
+        if cfg["env"].get("use_dynamic_addresses"):
+            prof["burst_no_game"] = True
         if prof.get("attacker_max_steps"):
             cfg["coordinator"]["agents"]["Attacker"]["max_steps"] = rng.choice(prof["attacker_max_steps"])
         label = f"session#{si}"
@@ -1005,6 +1101,16 @@ def run_sessions(drv, rng, defender_tables, on_fail, stats, n_sessions, n_events
                             continue
                         used.add(e["c"])
                         evs.append(e)
+                        if e["t"] == "connect" and not e.get("reuse") and rng.random() < 0.5:
+                            # the new client's JoinGame is already on the wire when the connection is accepted
+                            role = rng.choice(prof.get("roles", ["Attacker", "Attacker", "Defender", "Benign"]))
+                            name = f"agent{e['c']}"
+                            evs.append({"t": "msg", "c": e["c"], "m": {"k": "join", "name": name, "role": role},
+                                        "raw_bytes": J(ActionType.JoinGame, agent_info=AgentInfo(name, role))})
+                    if len(evs) >= 2 and prof.get("burst_no_game") and any(e["t"] == "msg" and e["m"]["k"] == "game" for e in evs):
+                        for e in evs:
+                            sess.do(e)
+                        continue
                     if len(evs) >= 2:
                         r0 = evs[0].get("roll", 0.5)
                         for e in evs:
@@ -1041,7 +1147,7 @@ def directed_sessions(drv, rng, defender_tables, on_fail, stats, n):
     ip = IP
     for i in range(n):
         cfg = gen_config(rng)
-        cfg["env"].update({"required_players": 2, "use_dynamic_addresses": False, "use_firewall": True, "use_global_defender": False})
+        cfg["env"].update({"required_players": 2, "use_dynamic_addresses": rng.random() < 0.4, "use_firewall": True, "use_global_defender": False})
         cfg["coordinator"]["agents"]["Attacker"]["start_position"]["controlled_hosts"] = ["213.47.23.195", "192.168.2.2"]
         cfg["coordinator"]["agents"]["Attacker"]["max_steps"] = rng.choice([None, 8, 20])
         if cfg["coordinator"]["agents"]["Attacker"]["max_steps"] is None:
@@ -1059,7 +1165,7 @@ def directed_sessions(drv, rng, defender_tables, on_fail, stats, n):
             how = rng.choice(["quit", "eof", "readerr"])
             evs = [{"t": "connect", "c": 0}, ev_join(0, modifier_role), {"t": "connect", "c": 1}, ev_join(1, idle_role)]
             if modifier_role == "Defender":
-                evs.append(ev_game(sess, 0, Action(ActionType.BlockIP, {"source_host": ip("192.168.1.2"), "target_host": ip("192.168.1.2"), "blocked_host": ip(rng.choice(["192.168.2.2", "192.168.1.3"]))})))
+                evs.append(ev_game(sess, 0, Action(ActionType.BlockIP, {"source_host": ip("192.168.1.2"), "target_host": ip("192.168.1.2"), "blocked_host": ip(rng.choice(["192.168.2.2", "192.168.1.3", "8.8.8.8", "10.9.9.9"]))})))
             else:
                 net = Network("192.168.1.0", 24)
                 evs += [ev_game(sess, 0, Action(ActionType.ScanNetwork, {"source_host": ip("192.168.2.2"), "target_network": net})),
@@ -1085,7 +1191,8 @@ def directed_sessions(drv, rng, defender_tables, on_fail, stats, n):
             # a replacement joins: the reset completes / the new episode starts; both play a little
             sess.do({"t": "connect", "c": 2})
             sess.do(ev_join(2, modifier_role))
-            sc = Script(sess, rng, {"bad": 0.0, "leave": 0.0, "burst": 0.0})
+            sess.next_cid = 3          # peer addresses 0-2 are taken by the scripted part
+            sc = Script(sess, rng, {"bad": 0.0, "leave": 0.0, "burst": 0.0, "reuse": 0.0})
             for _ in range(8):
                 if sess.broken:
                     break
@@ -1095,18 +1202,195 @@ def directed_sessions(drv, rng, defender_tables, on_fail, stats, n):
             sess.close()
 
 
+def directed_races(drv, rng, defender_tables, on_fail, stats, n):
+    """Scripted histories around the two races random bursts reach rarely.
+    (a) one agent is parked at the end-of-episode barrier, the only agent still playing leaves, and the replacement's
+        connection and JoinGame arrive in the same run of the event loop (0-3 iterations apart);
+    (b) with dynamic addresses one agent has left, the remaining agent's ResetGame completes the agreement and the
+        replacement's connection + JoinGame arrive in the same run of the event loop: its first view must be in the NEW labelling."""
+    def ev_game(sess, cid, a, roll=0.9):
+        return {"t": "msg", "c": cid, "m": {"k": "game", "act": sess.akey(a)}, "raw_bytes": a.to_json().encode(), "roll": roll}
+
+    def ev_join(cid, role):
+        return {"t": "msg", "c": cid, "m": {"k": "join", "name": f"agent{cid}", "role": role}, "raw_bytes": J(ActionType.JoinGame, agent_info=AgentInfo(f"agent{cid}", role))}
+
+    def ev_reset(cid, tr=False):
+        return {"t": "msg", "c": cid, "m": {"k": "reset", "traj": tr}, "raw_bytes": J(ActionType.ResetGame, request_trajectory=tr)}
+    scan = lambda: Action(ActionType.ScanNetwork, {"source_host": IP("192.168.2.2"), "target_network": Network("192.168.1.0", 24)})
+    for i in range(n):
+        kind = "a" if i % 2 == 0 else "b"
+        cfg = gen_config(rng)
+        cfg["env"].update({"required_players": 2, "use_dynamic_addresses": kind == "b", "use_firewall": True, "use_global_defender": False})
+        att = cfg["coordinator"]["agents"]["Attacker"]
+        att["start_position"]["controlled_hosts"] = ["213.47.23.195", "192.168.2.2"]
+        att["max_steps"] = rng.choice([1, 2, 3]) if kind == "a" else 20
+        att["goal"].update({"known_networks": [], "known_hosts": [], "controlled_hosts": [], "known_services": {}, "known_blocks": {},
+                            "known_data": {"213.47.23.195": [["User1", "DataFromServer1"]]}})      # not reached by the script
+        sess = Session(drv, rng, cfg, defender_tables, on_fail, stats, f"race-{kind}#{i}")
+        try:
+            if sess.sim.startup_error is not None or sess.sim.server_cb is None:
+                continue
+            for e in [{"t": "connect", "c": 0}, ev_join(0, "Attacker"), {"t": "connect", "c": 1}, ev_join(1, "Attacker")]:
+                sess.do(e)
+            sess.next_cid = 3
+            gaps = [0, 0, 0] if rng.random() < 0.5 else [rng.choice([0, 0, 1, 2, 3, 5]) for _ in range(3)]
+            how = rng.choice(["eof", "readerr", "quit"])
+            leave = ({"t": "msg", "c": 1, "m": {"k": "quit"}, "raw_bytes": J(ActionType.QuitGame)} if how == "quit" else {"t": how, "c": 1, "exc": "reset"})
+            if kind == "a":
+                for _ in range(att["max_steps"]):
+                    sess.do(ev_game(sess, 0, scan()))            # the last one parks agent 0 at the end-of-episode barrier
+                sess.do_burst([leave, {"t": "connect", "c": 2}, ev_join(2, "Attacker")], gaps)
+            else:
+                for _ in range(rng.choice([0, 2])):              # warm-up resets: the world is re-labelled before the race
+                    sess.do(ev_reset(0)); sess.do(ev_reset(1))
+                sess.do(ev_game(sess, 0, Action(ActionType.FindData, {"source_host": IP("213.47.23.195"), "target_host": IP("213.47.23.195")})))
+                sess.do(leave)
+                sess.do_burst([ev_reset(0, rng.random() < 0.5), {"t": "connect", "c": 2}, ev_join(2, "Attacker")], gaps)
+            sc = Script(sess, rng, {"bad": 0.0, "leave": 0.0, "burst": 0.0, "reuse": 0.0})
+            for _ in range(6):
+                if sess.broken:
+                    break
+                sess.do(sc.next())
+            stats["directed_races"] = stats.get("directed_races", 0) + 1
+        finally:
+            sess.close()
+
+
+def directed_defender(drv, rng, defender_tables, on_fail, stats, n):
+    """Global defender on, one attacker, long episodes: an identical FindData / ExploitService is repeated with 5-8 other
+    actions in between (fillers rolled high so that only the repeats can be detected), the repeats rolled 0: detection
+    then depends on the EPISODE-wide repeat count, not on the last few actions."""
+    def ev_game(sess, cid, a, roll):
+        return {"t": "msg", "c": cid, "m": {"k": "game", "act": sess.akey(a)}, "raw_bytes": a.to_json().encode(), "roll": roll}
+    src, c2 = IP("192.168.2.2"), IP("213.47.23.195")
+    for i in range(n):
+        cfg = gen_config(rng)
+        cfg["env"].update({"required_players": 1, "use_dynamic_addresses": False, "use_firewall": True, "use_global_defender": True})
+        att = cfg["coordinator"]["agents"]["Attacker"]
+        att["start_position"]["controlled_hosts"] = ["213.47.23.195", "192.168.2.2"]
+        att["max_steps"] = 60
+        att["goal"].update({"known_networks": [], "known_hosts": [], "controlled_hosts": [], "known_services": {}, "known_blocks": {},
+                            "known_data": {"213.47.23.195": [["User9", "NoSuchData"]]}})
+        sess = Session(drv, rng, cfg, defender_tables, on_fail, stats, f"defender#{i}")
+        try:
+            if sess.sim.startup_error is not None or sess.sim.server_cb is None:
+                continue
+            sess.do({"t": "connect", "c": 0})
+            sess.do({"t": "msg", "c": 0, "m": {"k": "join", "name": "agent0", "role": "Attacker"}, "raw_bytes": J(ActionType.JoinGame, agent_info=AgentInfo("agent0", "Attacker"))})
+            X = rng.choice([Action(ActionType.FindData, {"source_host": src, "target_host": rng.choice([src, c2])}),
+                            Action(ActionType.ExploitService, {"source_host": src, "target_host": IP("192.168.1.2"),
+                                                               "target_service": Service("ssh", "passive", "8.1.0", False)})])
+            fillers = [Action(ActionType.ScanNetwork, {"source_host": src, "target_network": Network("192.168.1.0", 24)}),
+                       Action(ActionType.ScanNetwork, {"source_host": src, "target_network": Network("192.168.2.0", 24)}),
+                       Action(ActionType.FindServices, {"source_host": src, "target_host": IP("192.168.1.2")}),
+                       Action(ActionType.FindServices, {"source_host": src, "target_host": IP("192.168.1.3")}),
+                       Action(ActionType.BlockIP, {"source_host": src, "target_host": src, "blocked_host": IP("192.168.1.4")}),
+                       Action(ActionType.ExfiltrateData, {"source_host": src, "target_host": c2, "data": Data("u", "d")})]
+            for rep in range(5):
+                if sess.broken or sess.coord._episode_ends.get(PEER(0)):
+                    break
+                xa = X
+                if rng.random() < 0.5:
+                    items = list(X.parameters.items())
+                    rng.shuffle(items)
+                    xa = Action(X.type, dict(items))
+                sess.do(ev_game(sess, 0, xa, 0.9 if rep == 0 else 0.0))
+                for _ in range(rng.randint(5, 8)):
+                    if sess.coord._episode_ends.get(PEER(0)):
+                        break
+                    sess.do(ev_game(sess, 0, rng.choice(fillers), 0.9))
+            stats["directed_defender"] = stats.get("directed_defender", 0) + 1
+        finally:
+            sess.close()
+
+
+def _canon_outs(outs):
+    r = []
+    for o in outs or []:
+        r.append(json.dumps([o.get("c"), o.get("k"), o.get("code"), o.get("obs"), o.get("maxSteps"), (o.get("traj") or {}).get("rewards"),
+                             (o.get("traj") or {}).get("states")], sort_keys=True, default=str))
+    return sorted(r)
+
+
+def twin_sessions(drv, rng, defender_tables, on_fail, stats, n, n_events=40):
+    """C09 on the real code alone, as a differential: a session is played with many malformed / out-of-order messages;
+    then the SAME session is played again on a fresh coordinator (same configuration and seed) with every rejected message
+    left out.  Everything else must be answered identically - a rejected message may not even shift hidden state such as
+    the position of the random generator behind 'random' start hosts."""
+    for i in range(n):
+        cfg = gen_config(rng)
+        cfg["env"]["use_dynamic_addresses"] = False
+        if rng.random() < 0.7:
+            cfg["env"]["scenario"] = "scenario1"
+            cfg["coordinator"]["agents"]["Attacker"]["start_position"]["controlled_hosts"] = rng.choice([["random"], ["213.47.23.195", "random"]])
+        sess = Session(drv, rng, cfg, defender_tables, on_fail, stats, f"twin#{i}")
+        per_event = []
+        try:
+            if sess.sim.startup_error is not None or sess.sim.server_cb is None:
+                continue
+            sc = Script(sess, rng, {"bad": 0.2, "out_of_order": 0.3, "leave": 0.03, "burst": 0.0, "early_reset": 0.06})
+            for _ in range(n_events):
+                if sess.broken:
+                    break
+                n0 = len(sess.events)
+                sess.last_real_outs = None
+                sess.do(sc.next())
+                if len(sess.events) == n0 + 1:
+                    per_event.append((sess.events[-1], sess.last_real_outs or []))
+            diverged = sess.diverged or sess.broken
+        finally:
+            sess.close()
+        if diverged:
+            continue
+        rejected = [k for k, (e, outs) in enumerate(per_event)
+                    if e["t"] == "msg" and outs and all(o.get("c") == e["c"] and o.get("k") == "reply" and o.get("code") == "BAD_REQUEST" for o in outs)]
+        if not rejected:
+            continue
+        stats["twin_sessions"] = stats.get("twin_sessions", 0) + 1
+        stats["twin_rejected_left_out"] = stats.get("twin_rejected_left_out", 0) + len(rejected)
+        twin = Session(drv, random.Random(0), cfg, defender_tables, lambda *a: None, {}, "twin-b")
+        twin.diverged = True          # real side only
+        try:
+            for k, (e, outs) in enumerate(per_event):
+                if k in rejected:
+                    continue
+                ev = dict(e)
+                if "raw_hex" in ev:
+                    ev["raw_bytes"] = bytes.fromhex(ev["raw_hex"])
+                twin.last_real_outs = None
+                twin.do(ev)
+                if _canon_outs(twin.last_real_outs) != _canon_outs(outs):
+                    left = [per_event[r][0].get("bad_kind") or per_event[r][0]["m"]["k"] for r in rejected if r < k]
+                    on_fail({"C09"}, f"twin:{e['t']}:{(e.get('m') or {}).get('k')}",
+                            f"with the rejected messages {left} left out, event #{k} ({e['t']} {(e.get('m') or {}).get('k', '')} on connection {e['c']}) is answered differently: "
+                            f"a rejected message changed what the coordinator does later",
+                            {"kind": "coord-session", "config": cfg, "events": [x[0] for x in per_event], "rejected_indices": rejected, "first_difference_at": k})
+                    break
+        finally:
+            twin.close()
+
+
 def check_files(sess: Session, on_fail, stats):
     """C16: the trajectory files written by the real coordinator vs the model's abstract file log."""
     import glob
     import jsonlines
     files = sorted(glob.glob(os.path.join(sess.sim.workdir, "trajectories", "*.jsonl")))
     real = {}
+    file_of, owners = {}, {}
     for f in files:
-        base = os.path.basename(f)
-        _, name, role = base[:-6].split("_", 2)
         with jsonlines.open(f) as rd:
             for rec in rd:
-                real.setdefault((name, role), []).append(rec)
+                # a record says whose episode it is; one file per (name, role), one (name, role) per file
+                key = (rec.get("agent_name"), rec.get("agent_role"))
+                real.setdefault(key, []).append(rec)
+                file_of.setdefault(key, set()).add(f)
+                owners.setdefault(f, set()).add(key)
+    for key, fs in file_of.items():
+        if len(fs) > 1:
+            on_fail({"C16"}, "files-split", f"the episodes of {key[0][:40]!r}/{key[1]} are spread over several files {sorted(os.path.basename(x)[:60] for x in fs)}", sess.replay())
+    for f, ks in owners.items():
+        if len(ks) > 1:
+            on_fail({"C16"}, "files-shared", f"trajectory file {os.path.basename(f)[:60]} holds episodes of different agents {sorted((k[0][:30], k[1]) for k in ks)}", sess.replay())
     m = sess.drv.ask({"op": "files"})["files"]
     model = {}
     for rec in m:
